@@ -388,6 +388,37 @@ func runC05(p *Plan, res *Result) {
 		}
 		d1 = d0
 	}
+	if kind == "txnContinue" && terr == nil && w.env.lastFailed != 0 {
+		// reference: the same transaction without the operations that reported an error
+		failed := w.env.lastFailed
+		setRandStep("twin-start")
+		ref, err := startNode(ctx, "r", w.n.Store.Fork(), w.opts)
+		if err != nil {
+			w.fail("reference twin: %v", err)
+			return
+		}
+		synctest.Wait()
+		ref.TakeUpdates()
+		w.env.skipMask = failed
+		setRandStep("call")
+		rerr, rpanic := safeCall(ac, ref, &handles{fresh: true})
+		w.env.skipMask = 0
+		synctest.Wait()
+		rEvents := ref.TakeUpdates()
+		dref, derr := fullDump(ref, withCommits)
+		ref.Close()
+		if derr != nil || rerr != nil || rpanic != "" {
+			w.fail("reference run of txnContinue: %v %v %s", derr, rerr, rpanic)
+			return
+		}
+		res.Stats["txn_operations_failed_logically"]++
+		if df := diffDump(dref, d1); df != "" || len(rEvents) != len(tEvents) {
+			res.violate("C05", "error-left-trace", "error-left-trace/txnContinue/committed-with-transaction/"+dumpSection(df), 0,
+				"operations %b of an explicit transaction reported an error, the caller went on and committed: the committed state differs from that of the same transaction without those operations (events %d vs %d): %s",
+				failed, len(tEvents), len(rEvents), df)
+			return
+		}
+	}
 	res.logf("call %s twin err=%v sites=%d events=%d", kind, terr, len(sites), len(tEvents))
 	// distinct sites
 	var distinct []Site
